@@ -480,8 +480,12 @@ impl<Probability: BitArray, const PRECISION: usize>
         I::Item: Borrow<Probability>,
     {
         let probabilities = probabilities.into_iter();
-        let mut cdf =
-            Vec::with_capacity(probabilities.size_hint().0 + 1 + infer_last_probability as usize);
+        let mut cdf = Vec::with_capacity(
+            probabilities
+                .size_hint()
+                .0
+                .wrapping_add(1 + infer_last_probability as usize),
+        );
         accumulate_nonzero_probabilities::<_, _, _, _, _, PRECISION>(
             core::iter::repeat(()),
             probabilities,
